@@ -156,8 +156,9 @@ def watermark(ctx, drv):
                 if compressed != want:
                     ctx.fail('watermark-not-followed', dict(scen, manifest=p), f'size {size} watermark {wm} compressed {compressed}')
                 # exactly one file per logical Manifest
-                twins = [q for q in after if q != p and (q == logical or any(q == logical + s for s in FORMATS[1:]))]
-                if twins and not any(t in before_m for t in twins if before.get(t) == after.get(t)):
+                # (a second file for the same logical Manifest that was there BEFORE the update is prior state, not a failed rename)
+                twins = [q for q in after if q != p and q not in before and (q == logical or any(q == logical + s for s in FORMATS[1:]))]
+                if twins:
                     ctx.fail('two-files-for-one-manifest', dict(scen, manifest=p), str(twins))
             if top == 'Manifest' or not os.path.exists(os.path.join(root, 'Manifest.gz')):
                 pass
